@@ -1528,3 +1528,97 @@ func checkPolygonKeepsItsVertices(ctx *Ctx, r *Report) {
 		r.check("W20", "Polygon2D|segment-builder", fn.Pos(), true, "no segment builder called with a vertex slice (rule not applicable to this shape)")
 	}
 }
+
+// ---------------------------------------------------------------- W21: crossings at a box corner
+
+func init() {
+	prev := registry["C04"].run
+	registry["C04"] = propDef{run: func(ctx *Ctx, r *Report, tier string) {
+		prev(ctx, r, tier)
+		checkCornerCrossingsMerged(ctx, r)
+	}}
+}
+
+// checkCornerCrossingsMerged (W21): a segment that passes a box corner within the snapping
+// tolerance crosses two box edges at parameters that differ by more than the parameter
+// tolerance (W8 keeps both), and both crossings snap to the corner: the clipper then holds three
+// candidate points for a piece that has two ends, and a clipper that insists on exactly two
+// drops the piece from that child and from the one diagonally opposite. The function that
+// collects the snapped candidate points therefore compares a new point with the points it
+// already holds before appending it.
+func checkCornerCrossingsMerged(ctx *Ctx, r *Report) {
+	fn := ctx.ssaFunc("sdf", "(*Box2).lineIntersect")
+	if fn == nil {
+		r.undecided("W21", "Box2.lineIntersect", 0, "not found")
+		return
+	}
+	isPointSet := func(t types.Type) bool {
+		sl, ok := t.Underlying().(*types.Slice)
+		return ok && strings.HasSuffix(sl.Elem().String(), "vec/v2.Vec")
+	}
+	fns := []*ssa.Function{fn}
+	allInstrs(fn, func(_ *ssa.BasicBlock, ins ssa.Instruction) {
+		if c, ok := ins.(*ssa.Call); ok {
+			if f := c.Common().StaticCallee(); f != nil && inModule(f) && len(f.Blocks) > 0 {
+				for _, a := range c.Common().Args {
+					if isPointSet(a.Type()) {
+						fns = append(fns, f)
+						break
+					}
+				}
+			}
+		}
+	})
+	n := 0
+	for _, f := range fns {
+		var app *ssa.Call
+		compares := false
+		fromSet := func(v ssa.Value) bool {
+			for d := 0; d < 4 && v != nil; d++ {
+				switch x := v.(type) {
+				case *ssa.UnOp:
+					v = x.X
+				case *ssa.Field:
+					v = x.X
+				case *ssa.FieldAddr:
+					v = x.X
+				case *ssa.IndexAddr:
+					return isPointSet(x.X.Type())
+				case *ssa.Index:
+					return isPointSet(x.X.Type())
+				default:
+					return false
+				}
+			}
+			return false
+		}
+		allInstrs(f, func(_ *ssa.BasicBlock, ins ssa.Instruction) {
+			switch x := ins.(type) {
+			case *ssa.Call:
+				if bi, ok := x.Common().Value.(*ssa.Builtin); ok && bi.Name() == "append" && isPointSet(x.Type()) {
+					app = x
+				}
+				if cf := x.Common().StaticCallee(); cf != nil && (cf.Name() == "Equals" || cf.Name() == "EqualFloat64") {
+					for _, a := range x.Common().Args {
+						if fromSet(a) {
+							compares = true
+						}
+					}
+				}
+			case *ssa.BinOp:
+				if (x.Op == token.EQL || x.Op == token.NEQ) && (fromSet(x.X) || fromSet(x.Y)) {
+					compares = true
+				}
+			}
+		})
+		if app == nil {
+			continue
+		}
+		n++
+		r.check("W21", "Box2.lineIntersect|"+f.Name()+"-merges-candidate-points-that-snap-together", app.Pos(), compares,
+			"a candidate point is compared with the points already collected before it is appended (two crossings within the snapping tolerance of a box corner are one end point)")
+	}
+	if n == 0 {
+		r.check("W21", "Box2.lineIntersect|candidate-points", fn.Pos(), true, "no candidate point set is built by appending (rule not applicable to this shape)")
+	}
+}
